@@ -170,10 +170,14 @@ def native_replay_race(pkgkey, cases, case_timeout_ms=60000, files=None):
         except subprocess.TimeoutExpired:
             raise RuntimeError("native race replay timed out")
         text = r.stdout + r.stderr
-        if not os.path.exists(of):
+        crashed = "fatal error: concurrent map" in text
+        if not os.path.exists(of) and not crashed and "WARNING: DATA RACE" not in text:
             raise RuntimeError("native race replay failed:\n" + text[-3000:])
-        res = json.load(open(of))[0]
-        if "WARNING: DATA RACE" in text or "concurrent map" in text:
+        # a run the Go runtime aborts ("concurrent map writes") leaves no result file: the abort is the failure
+        res = json.load(open(of))[0] if os.path.exists(of) else {"outcome": "panic", "panic_msg": "fatal error: concurrent map access"}
+        if "WARNING: DATA RACE" in text or crashed:
+            if crashed and "WARNING: DATA RACE" not in text:
+                text = text[text.find("fatal error: concurrent map"):]
             i = text.find("WARNING: DATA RACE")
             res["outcome"] = "assert_fail"
             res["failed"] = list(res.get("failed") or []) + [case.get("tag", "")]
